@@ -1223,7 +1223,8 @@ impl<'a> TLVSequenceTLVIter<'a> {
             if control.is_container_start() {
                 self.nesting += 1;
             } else if control.is_container_end() {
-                self.nesting -= 1;
+                // When iterating the content of a container, its own end marker is reached at nesting 0
+                self.nesting = self.nesting.saturating_sub(1);
             }
         }
 
